@@ -515,6 +515,11 @@ pub fn run(ctx: &Ctx) -> Report {
     }
     // an H10 top tree (three cached levels of real size)
     keys.push(Key { alg: Alg::Sha256_256, levels: levels(&[(10, 4)]), seed: rng.bytes(32), all_bits: false, tool: true, light: true, part: 0, parts: 1 });
+    // an H15 top tree: cached levels of 64 KiB and more, buffers up to a megabyte (every size and
+    // offset computation of the aux code beyond 16 bits); not in a build whose limits exclude it
+    if crate::common::in_build_limits(&levels(&[(15, 1)])) {
+        keys.push(Key { alg: Alg::Sha256_128, levels: levels(&[(15, 1)]), seed: rng.bytes(16), all_bits: false, tool: false, light: true, part: 0, parts: 1 });
+    }
     if !ctx.quick() {
         keys.push(Key { alg: Alg::Sha256_192, levels: levels(&[(10, 4), (2, 8)]), seed: rng.bytes(24), all_bits: false, tool: false, light: true, part: 0, parts: 1 });
         keys.push(Key { alg: Alg::Shake256_128, levels: levels(&[(10, 2)]), seed: rng.bytes(16), all_bits: false, tool: false, light: true, part: 0, parts: 1 });
@@ -522,7 +527,7 @@ pub fn run(ctx: &Ctx) -> Report {
     // split every key's work items over several tasks so that the run parallelises
     let mut split: Vec<Key> = Vec::new();
     for k in keys {
-        let parts = if k.all_bits && k.levels[0].h == 5 { 16 } else if k.light { 3 } else { 6 };
+        let parts = if k.all_bits && k.levels[0].h == 5 { 16 } else if k.levels[0].h >= 15 { 12 } else if k.light { 3 } else { 6 };
         for part in 0..parts {
             split.push(Key { alg: k.alg, levels: k.levels.clone(), seed: k.seed.clone(), all_bits: k.all_bits, tool: k.tool, light: k.light, part, parts });
         }
